@@ -41,6 +41,11 @@ def blob(size: int, seed: int) -> bytes:
     and payloads are binary whatever they look like, in every check that draws its contents here."""
     if seed % 11 == 5 and size:
         return textlike(size, seed)
+    if seed % 13 == 7 and size:   # a long run of the erased-flash value (all of it when short): data like any other
+        r = bytearray(_raw(size, seed))
+        a = size // 5
+        r[a:a + max(48, size // 2)] = b"\xff" * len(r[a:a + max(48, size // 2)])
+        return bytes(r)
     return _raw(size, seed)
 
 
